@@ -231,6 +231,60 @@ def _loop_guards(node):
     return [g for g in guards_of(node) if g.kind == 'loop']
 
 
+class Coll:
+    """one producing site of a list: element expression, iteration variable(s), source, filter conjuncts"""
+    def __init__(self, elt, var, src, conj, node, loop):
+        self.elt, self.var, self.src, self.conj, self.node, self.loop = elt, var, src, conj, node, loop
+
+
+def _collected(func, name):
+    """how the list `name` is filled in func's own scope -- the append-loop form
+    (`name = []; for v in src: if f: name.append(elt)`) and the comprehension form (`name = [elt for v in src if f]`)
+    are the same thing to the rules.  conj is None when a filter is not a pure conjunction."""
+    from sa.astutil import Guard
+    out = []
+    for kind, node, val in _bindings(func, name):
+        if kind == 'assign' and isinstance(val, ast.ListComp):
+            if len(val.generators) != 1:
+                raise AnalysisError(f"{func.name}: {name} is built by a nested comprehension (outside the understood shapes)")
+            g = val.generators[0]
+            gs = [Guard(f, True, 'if', val) for f in g.ifs] + _cond_guards(node)
+            out.append(Coll(val.elt, g.target, g.iter, _conjuncts(gs), val, None))
+    for n in _own_nodes(func):
+        if _is_call(n, attr='append', nargs=1) and isinstance(n.func.value, ast.Name) and n.func.value.id == name:
+            lp = enclosing(n, (ast.For,))
+            if lp is not None and enclosing_func(lp) is not func:
+                lp = None
+            out.append(Coll(n.args[0], lp.target if lp is not None else None, lp.iter if lp is not None else None,
+                            _conjuncts(_cond_guards(stmt_of(n))), n, lp))
+    return out
+
+
+def _index_iter(it, tgt):
+    """(table name, index var, element var) of `for i in range(len(T))` / `for i, e in enumerate(T)` / `for e in T`"""
+    if _is_call(it, name='range', nargs=1) and _is_call(it.args[0], name='len', nargs=1) and isinstance(it.args[0].args[0], ast.Name) \
+            and isinstance(tgt, ast.Name):
+        return it.args[0].args[0].id, tgt.id, None
+    if _is_call(it, name='enumerate', nargs=1) and isinstance(it.args[0], ast.Name) and isinstance(tgt, ast.Tuple) and len(tgt.elts) == 2 \
+            and all(isinstance(x, ast.Name) for x in tgt.elts):
+        return it.args[0].id, tgt.elts[0].id, tgt.elts[1].id
+    if isinstance(it, ast.Name) and isinstance(tgt, ast.Name):
+        return it.id, None, tgt.id
+    return None
+
+
+def _addends(e):
+    if isinstance(e, ast.BinOp) and isinstance(e.op, ast.Add):
+        return _addends(e.left) + _addends(e.right)
+    return [e]
+
+
+def _iter_sig(e):
+    """order-insensitive signature of what a loop runs over (sorted()/list()/reversed() wrappers and the order of
+    concatenated pieces do not matter for 'which elements')"""
+    return sorted(norm(_strip_wrappers(p)) for p in _addends(_strip_wrappers(e)))
+
+
 # ---------------------------------------------------------------------------
 # string-template domain
 class Hole:
@@ -421,6 +475,9 @@ def _meta_pair(item):
             ce = ast.parse(c, mode='eval').body
         except SyntaxError:
             return None
+        while isinstance(ce, ast.UnaryOp) and isinstance(ce.op, ast.Not) and isinstance(ce.operand, ast.UnaryOp) \
+                and isinstance(ce.operand.op, ast.Not):
+            ce = ce.operand.operand       # `else` arm of `if not c:`
         conds.append(ce)
     own = [c for c in conds if _is_call(c, attr='has_metadata', nargs=1) and (norm(c.func.value), norm(c.args[0])) == want]
     return want, own, [c for c in conds if c not in own]
@@ -700,6 +757,15 @@ def _net_loop(v):
         raise AnalysisError(f"{v.dump.name}: expected exactly one loop printing value changes")
     lp = loops[0]
     it, tgt, idx = lp.iter, lp.target, None
+    ii = _index_iter(it, tgt)
+    if ii is not None and ii[1] is not None and ii[2] is None:
+        # for i in range(len(T)): sig, sym = T[i]
+        un = [s for s in lp.body if isinstance(s, ast.Assign) and len(s.targets) == 1 and isinstance(s.targets[0], ast.Tuple)
+              and len(s.targets[0].elts) == 2 and all(isinstance(x, ast.Name) for x in s.targets[0].elts)
+              and norm(s.value) == f'{ii[0]}[{ii[1]}]']
+        if len(un) != 1:
+            raise AnalysisError(f"{v.dump.name}: index loop without `signal, symbol = table[i]`")
+        return lp, ii[1], un[0].targets[0].elts[0].id, un[0].targets[0].elts[1].id, ii[0]
     if _is_call(it, name='enumerate', nargs=1):
         if not (isinstance(tgt, ast.Tuple) and len(tgt.elts) == 2 and isinstance(tgt.elts[0], ast.Name)):
             raise AnalysisError(f"{v.dump.name}: enumerate target outside the understood shapes")
@@ -787,26 +853,22 @@ def _clock_run(v, loop, cnt, n):
 
 
 def _pairs_table(v, name, at):
-    """the (signal, symbol) table: returns (net table, symbol table, index var, filters) or raises"""
-    val = _unique_value(name, at)
-    if val is None or not isinstance(val, ast.ListComp) or len(val.generators) != 1 or \
-            not (isinstance(val.elt, ast.Tuple) and len(val.elt.elts) == 2):
-        raise AnalysisError(f"make_vcd_func: {name} is not a single comprehension of (signal, symbol) pairs")
-    gen = val.generators[0]
-    e_sig, e_sym = val.elt.elts
+    """the (signal, symbol) table, built by a comprehension or an append loop:
+    returns (defining node, net table, symbol table, index var, filter conjuncts, pairing ok)"""
+    colls = _collected(v.mk, name)
+    if len(colls) != 1 or not (isinstance(colls[0].elt, ast.Tuple) and len(colls[0].elt.elts) == 2) or colls[0].src is None:
+        raise AnalysisError(f"make_vcd_func: {name} is not built at one site from (signal, symbol) pairs")
+    c = colls[0]
+    e_sig, e_sym = c.elt.elts
+    e_sig, e_sym = _res(e_sig, c.node), _res(e_sym, c.node)
     nets = syms = ivar = None
     ok_pair = False
-    it, tg = gen.iter, gen.target
-    if _is_call(it, name='range', nargs=1) and _is_call(it.args[0], name='len', nargs=1) and isinstance(it.args[0].args[0], ast.Name) \
-            and isinstance(tg, ast.Name):
-        nets, ivar = it.args[0].args[0].id, tg.id
-        ok_pair = isinstance(e_sig, ast.Subscript) and norm(e_sig.value) == f"{nets}[{ivar}]" and norm(e_sig.slice) in ('0', '-1') \
-            and isinstance(e_sym, ast.Subscript) and isinstance(e_sym.value, ast.Name) and norm(e_sym.slice) == ivar
-        syms = e_sym.value.id if ok_pair else None
-    elif _is_call(it, name='enumerate', nargs=1) and isinstance(it.args[0], ast.Name) and isinstance(tg, ast.Tuple) \
-            and len(tg.elts) == 2 and all(isinstance(x, ast.Name) for x in tg.elts):
-        nets, ivar, nv = it.args[0].id, tg.elts[0].id, tg.elts[1].id
-        ok_pair = isinstance(e_sig, ast.Subscript) and norm(e_sig.value) in (nv, f"{nets}[{ivar}]") and norm(e_sig.slice) in ('0', '-1') \
+    it, tg = c.src, c.var
+    ii = _index_iter(it, tg)
+    if ii is not None and ii[1] is not None:
+        nets, ivar, nv = ii
+        members = [f"{nets}[{ivar}]"] + ([nv] if nv else [])
+        ok_pair = isinstance(e_sig, ast.Subscript) and norm(e_sig.value) in members and norm(e_sig.slice) in ('0', '-1') \
             and isinstance(e_sym, ast.Subscript) and isinstance(e_sym.value, ast.Name) and norm(e_sym.slice) == ivar
         syms = e_sym.value.id if ok_pair else None
     elif _is_call(it, name='zip', nargs=2) and all(isinstance(a, ast.Name) for a in it.args) and isinstance(tg, ast.Tuple) \
@@ -815,8 +877,8 @@ def _pairs_table(v, name, at):
         ok_pair = isinstance(e_sig, ast.Subscript) and norm(e_sig.value) == tg.elts[0].id and norm(e_sig.slice) in ('0', '-1') \
             and norm(e_sym) == tg.elts[1].id
     else:
-        raise AnalysisError(f"make_vcd_func: generator of {name} outside the understood shapes: {norm(gen.iter)}")
-    return val, nets, syms, ivar, gen.ifs, ok_pair
+        raise AnalysisError(f"make_vcd_func: source of {name} outside the understood shapes: {norm(it)}")
+    return (c.loop or c.node), nets, syms, ivar, c.conj, ok_pair
 
 
 def rule_compress(repo):
@@ -958,17 +1020,15 @@ def rule_compress(repo):
         raise AnalysisError("make_vcd_func: cannot find `<clock symbol> = <symbol table>[<clock net index>]`")
     clkidx = clock_sym[0].value.slice.id
     badf = []
-    for f in ifs:
-        t = f
-        pol = True
-        while isinstance(t, ast.UnaryOp) and isinstance(t.op, ast.Not):
-            t, pol = t.operand, not pol
+    if ifs is None:
+        badf.append('<filter that is not a conjunction>')
+    for pol, t in (ifs or []):
         okf = isinstance(t, ast.Compare) and len(t.ops) == 1 and isinstance(t.ops[0], (ast.Eq, ast.NotEq)) and \
-            {norm(t.left), norm(t.comparators[0])} == {ivar, clkidx} and (isinstance(t.ops[0], ast.NotEq) == pol)
+            {norm(t.left), norm(t.comparators[0])} == {ivar, clkidx} and (isinstance(t.ops[0], ast.NotEq) == (pol == 'pos'))
         if not okf:
-            badf.append(f)
-    _chk(r, not badf, m, v.q, f"{table}: filters [{', '.join(norm(f) for f in ifs)}]",
-         f"nets other than the clock net are left out of the per-cycle table ({norm(badf[0]) if badf else ''}): their signals keep "
+            badf.append(('' if pol == 'pos' else 'not ') + norm(t))
+    _chk(r, not badf, m, v.q, f"{table}: filters [{', '.join(('' if p_ == 'pos' else 'not ') + norm(t) for p_, t in (ifs or []))}]",
+         f"nets other than the clock net are left out of the per-cycle table ({badf[0] if badf else ''}): their signals keep "
          f"their initial value in the waveform forever", val)
     # --- clock lines: abstract run of the straight-line part for cycle numbers 0..4
     v.clk = (syms, clkidx)
@@ -1105,12 +1165,21 @@ def _ret_candidates(f):
         if rt.value is None:
             raise AnalysisError(f"{f.name}: bare return")
         bs = _bindings(f, rt.value.id) if isinstance(rt.value, ast.Name) else []
-        if bs and all(b[0] == 'assign' for b in bs) and len(bs) > 1:
+        if bs and all(b[0] == 'assign' for b in bs):
             for b in bs:
                 cands.append((b[2], b[1], _cond_guards(b[1]) + _cond_guards(rt)))
         else:
             cands.append((rt.value, rt, _cond_guards(rt)))
-    return cands
+    from sa.astutil import Guard
+    out = []
+    while cands:
+        val, st, gs = cands.pop(0)
+        if isinstance(val, ast.IfExp):      # a if c else b
+            cands.append((val.body, st, gs + [Guard(val.test, True, 'if', val)]))
+            cands.append((val.orelse, st, gs + [Guard(val.test, False, 'if', val)]))
+        else:
+            out.append((val, st, gs))
+    return out
 
 
 def _value_ok(e, me):
@@ -1333,10 +1402,12 @@ def rule_header(repo):
         norm(gA[0].test) in (NEW, f'len({NEW}) > 0', f'len({NEW}) != 0', f'len({NEW})')
     _chk(r, okL1, m, q, f"{norm(apps[0])} under {[repr(g) for g in gA]}", "every non-empty trimmed net must be appended exactly once per net", apps[0])
     # M. one symbol per net, one generator
-    sv = _unique_value(syms, lp)
-    okM = isinstance(sv, ast.ListComp) and len(sv.generators) == 1 and not sv.generators[0].ifs and norm(sv.generators[0].iter) == nets \
-        and _is_call(sv.elt, name='next', nargs=1) and isinstance(sv.elt.args[0], ast.Name) and sv.elt.args[0].id == GEN
-    _chk(r, okM, m, q, f"{syms} = {norm(sv) if sv is not None else '?'}", f"the symbol table must hold one next({GEN}) per net, in net order", sv or mk)
+    sc = _collected(mk, syms)
+    okM = len(sc) == 1 and sc[0].src is not None and sc[0].conj == [] and \
+        norm(sc[0].src) in (nets, f'enumerate({nets})', f'range(len({nets}))') \
+        and _is_call(sc[0].elt, name='next', nargs=1) and isinstance(sc[0].elt.args[0], ast.Name) and sc[0].elt.args[0].id == GEN
+    _chk(r, okM, m, q, f"{syms}: {norm(sc[0].elt) if sc else '?'} for each of {norm(sc[0].src) if sc and sc[0].src is not None else '?'}",
+         f"the symbol table must hold one next({GEN}) per net, in net order", sc[0].node if sc else mk)
     nexts = [n for n in ast.walk(mk) if _is_call(n, name='next')]
     stray = [n for n in nexts if not (n.args and isinstance(n.args[0], ast.Name) and n.args[0].id == GEN)]
     gens = [b for b in _bindings(mk, GEN)] if GEN else []
@@ -1346,20 +1417,28 @@ def rule_header(repo):
     if MAP is None:
         raise AnalysisError(f"{R.name}: membership map not identified")
     mst = [n for n in _own_nodes(mk) if isinstance(n, ast.Assign) and any(isinstance(t, ast.Subscript) and norm(t.value) == MAP for t in n.targets)]
-    if len(mst) != 1:
-        raise AnalysisError(f"make_vcd_func: expected one store into {MAP}")
-    ms = mst[0]
-    lg = _loop_guards(ms)
+    mdc = [b[2] for b in _bindings(mk, MAP) if b[0] == 'assign' and isinstance(b[2], ast.DictComp)]
+    shape = None          # (outer target, outer iter, inner target, inner iter, key, value, node)
+    if len(mst) == 1 and not mdc:
+        ms = mst[0]
+        lg = _loop_guards(ms)
+        if len(lg) == 2 and not _cond_guards(ms):
+            shape = (lg[1].node.target, lg[1].node.iter, lg[0].node.target, lg[0].node.iter, ms.targets[0].slice, ms.value, ms)
+    elif len(mdc) == 1 and not mst and len(mdc[0].generators) == 2 and not any(g.ifs for g in mdc[0].generators):
+        g0, g1 = mdc[0].generators
+        shape = (g0.target, g0.iter, g1.target, g1.iter, mdc[0].key, mdc[0].value, mdc[0])
+    else:
+        raise AnalysisError(f"make_vcd_func: expected one site filling {MAP}")
     okN = False
-    if len(lg) == 2 and not _cond_guards(ms):
-        inner, outer = lg[0].node, lg[1].node
-        key = norm(ms.targets[0].slice)
-        if _is_call(outer.iter, name='range', nargs=1) and norm(outer.iter.args[0]) == f'len({nets})' and isinstance(outer.target, ast.Name):
-            okN = norm(inner.iter) == f'{nets}[{outer.target.id}]' and norm(inner.target) == key and norm(ms.value) == outer.target.id
-        elif _is_call(outer.iter, name='enumerate', nargs=1) and norm(outer.iter.args[0]) == nets and isinstance(outer.target, ast.Tuple):
-            iv, nv = [norm(e) for e in outer.target.elts]
-            okN = norm(inner.iter) in (nv, f'{nets}[{iv}]') and norm(inner.target) == key and norm(ms.value) == iv
-    _chk(r, okN, m, q, norm(ms), f"every signal of net i must be mapped to i (the index used for {syms}): otherwise connected signals "
+    if shape is not None:
+        ot, oi, it_, ii_, key, value, ms = shape
+        oo = _index_iter(oi, ot)
+        if oo is not None and oo[0] == nets and oo[1] is not None:
+            members = [f'{nets}[{oo[1]}]'] + ([oo[2]] if oo[2] else [])
+            okN = norm(ii_) in members and norm(it_) == norm(key) and norm(value) == oo[1]
+    else:
+        ms = mst[0]
+    _chk(r, okN, m, q, norm(ms)[:120], f"every signal of net i must be mapped to i (the index used for {syms}): otherwise connected signals "
          "are declared under another net's symbol", ms)
     # O. clock index
     cs = [n for n in _own_nodes(mk) if isinstance(n, ast.Assign) and len(n.targets) == 1 and isinstance(n.targets[0], ast.Name)
@@ -1376,9 +1455,10 @@ def rule_header(repo):
             node = b[1]
             n_clk += 1
             cj = _conjuncts(_cond_guards(node)) or []
-            isclk = [t for p, t in cj if p == 'pos' and isinstance(t, ast.Compare) and len(t.ops) == 1 and isinstance(t.ops[0], ast.Eq)
+            isclk = [t for g_ in _cond_guards(node) if g_.polarity is True for t in ast.walk(g_.test)
+                     if isinstance(t, ast.Compare) and len(t.ops) == 1 and isinstance(t.ops[0], ast.Eq)
                      and {norm(t.left), norm(t.comparators[0])} & {"'s.clk'"} and
-                     any(_is_call(x, name='repr', nargs=1) for x in (t.left, t.comparators[0]))]
+                     any(_is_call(_res(x, node), name='repr', nargs=1) for x in (t.left, t.comparators[0]))]
             inside = any(x is node for x in ast.walk(loopnode))
             la = [n for n in ast.walk(loopnode) if _is_call(n, attr='append', nargs=1) and norm(n.func.value) == nets]
             okO = inside and bool(isclk) and norm(b[2]) == f'len({nets})' and len(la) == 1 and _pos(loopnode, node) < _pos(loopnode, la[0])
@@ -1396,12 +1476,16 @@ def rule_header(repo):
     okJ = len(ends) == 1 and tops and _pos(mk, tops[0]) < _pos(mk, ends[0]) < _pos(mk, il)
     _chk(r, okJ, m, q, "$enddefinitions $end after the declarations, before the initial values", "the definition section must be "
          "closed after all $var lines and before the first value", ends[0] if ends else mk)
-    okP = _is_call(il.iter, name='enumerate', nargs=1) and norm(il.iter.args[0]) == nets and isinstance(il.target, ast.Tuple) \
-        and len(il.target.elts) == 2
+    pi = _index_iter(il.iter, il.target)
+    okP = pi is not None and pi[0] == nets and pi[1] is not None
     _chk(r, okP, m, q, f"for {norm(il.target)} in {norm(il.iter)}", "the initial values must be printed for every net (enumerate over the "
          "whole net table): a net without initial value is undefined until its first change", il)
     if okP:
-        iv, nv = [norm(e) for e in il.target.elts]
+        iv, nv = pi[1], pi[2]
+        if nv is None:
+            al = [s_.targets[0].id for s_ in il.body if isinstance(s_, ast.Assign) and len(s_.targets) == 1
+                  and isinstance(s_.targets[0], ast.Name) and norm(s_.value) == f'{nets}[{iv}]']
+            nv = al[0] if al else f'{nets}[{iv}]'
         ip = _prints_to(il, v.fvar, nested=True)
         if len(ip) != 1 or len(ip[0].args) != 1:
             raise AnalysisError("make_vcd_func: expected one print in the initial-value loop")
@@ -1419,7 +1503,7 @@ def rule_header(repo):
                 if _is_call(E, attr='to_bits', nargs=0):
                     T = _res(E.func.value, E)
                     if _is_call(T, None, nargs=0) and isinstance(T.func, ast.Attribute) and T.func.attr == 'Type':
-                        okc = norm(T.func.value) in (f'{nv}[0]._dsl', f'{nv}[-1]._dsl', f'{nets}[{iv}][0]._dsl')
+                        okc = norm(_deep(T.func.value, T)) in (f'{nv}[0]._dsl', f'{nv}[-1]._dsl', f'{nets}[{iv}][0]._dsl', f'{nets}[{iv}][-1]._dsl')
             _chk(r, okc, m, q, f"initial value {norm(_deep(parts[0].expr, ip[0]))}", "the initial value must be the default instance of "
                  "the net's type, packed with to_bits() and rendered with to_vcd_str() (the same rendering the per-cycle comparison uses)", ip[0])
             st = [n for n in ast.walk(il) if isinstance(n, ast.Assign) and any(isinstance(t, ast.Subscript) and norm(t.value) == LV for t in n.targets)]
@@ -1570,15 +1654,12 @@ def rule_textwave(repo):
     _chk(r, indent != '' and indent.strip() == '' and SEP == '\n' + indent, m, cq, f"lines joined with {SEP!r}, body indentation {indent!r}",
          "the separator must be a newline plus the body indentation: otherwise only the first line is inside the function, the other "
          "signals are recorded once at compile time and never again", J)
-    # the lines
-    apps = [n for n in _own_nodes(C) if _is_call(n, attr='append', nargs=1) and norm(n.func.value) == LINES]
-    if len(apps) != 1:
-        raise AnalysisError(f"{cq}: expected one {LINES}.append(<line>)")
-    ap = apps[0]
-    el = enclosing(ap, (ast.For,))
-    if el is None or parent(el) is not C:
-        raise AnalysisError(f"{cq}: line emission is not in a top-level loop of the collector")
-    lparts = _tmpl(ap.args[0])
+    # the lines (built by an append loop or by a comprehension)
+    lc = _collected(C, LINES)
+    if len(lc) != 1 or lc[0].src is None:
+        raise AnalysisError(f"{cq}: expected one site producing the generated lines ({LINES}) in a loop/comprehension")
+    ln = lc[0]
+    lparts = _tmpl(_res(ln.elt, ln.node))
     lholes = [p for p in lparts if isinstance(p, Hole)]
     xv = norm(lholes[0].expr) if lholes else None
     okX = bool(lholes) and all(isinstance(h.expr, ast.Name) and h.expr.id == xv and not h.spec and h.conv == -1 for h in lholes)
@@ -1598,60 +1679,74 @@ def rule_textwave(repo):
             pass
     _chk(r, okL, m, cq, f"line: {shown}", f"every generated line must read {rk}['<name>'].append( <name>.to_bits().bin() ) for one and the "
          f"same signal name: the record of a signal must receive the packed binary string of that signal (the printer parses base 2 and "
-         f"takes the width from the string length)", ap)
-    inits = [s for s in el.body if isinstance(s, ast.Assign) and len(s.targets) == 1 and isinstance(s.targets[0], ast.Subscript)
-             and norm(s.targets[0].value) == REC and norm(s.targets[0].slice) == xv and
-             ((isinstance(s.value, ast.List) and not s.value.elts) or norm(s.value) == 'list()')]
-    okE = len(inits) == 1 and not _cond_guards(stmt_of(ap)) and len(_loop_guards(stmt_of(ap))) == 1 and \
-        not any(isinstance(n, (ast.Break, ast.Continue)) for n in ast.walk(el))
-    _chk(r, okE, m, cq, f"for {norm(el.target)} in ...: {REC}[{xv}] = [] ; {LINES}.append(...)", "every name of the loop must get its empty "
-         "list and its line, unconditionally", el)
-    # which names: the emission loop runs over a literal with s.reset plus ALL collected names
-    nm_apps = [n for n in _own_nodes(C) if _is_call(n, attr='append', nargs=1) and isinstance(n.func.value, ast.Name)
-               and n.func.value.id != LINES and isinstance(n.args[0], ast.Tuple)
-               and any(_is_call(x, name='repr', nargs=1) for x in n.args[0].elts)]
-    if len(nm_apps) != 1:
-        raise AnalysisError(f"{cq}: expected one <names>.append((..., repr(signal)))")
-    na = nm_apps[0]
-    NAMES = na.func.value.id
-    cl = enclosing(na, (ast.For,))
-    sv = norm(cl.target) if cl is not None else None
-    j = [i for i, x in enumerate(na.args[0].elts) if norm(x) == f'repr({sv})']
-
-    def addends(e):
-        if isinstance(e, ast.BinOp) and isinstance(e.op, ast.Add):
-            return addends(e.left) + addends(e.right)
-        return [e]
-    pieces = [_strip_wrappers(p) for p in addends(el.iter)]
-    names_n = sum(1 for p in pieces if isinstance(p, ast.Name) and p.id == NAMES)
-    lits = [p for p in pieces if isinstance(p, ast.List)]
-    other = [p for p in pieces if not (isinstance(p, ast.Name) and p.id == NAMES) and not isinstance(p, ast.List)]
-    tg = el.target.elts if isinstance(el.target, ast.Tuple) else [el.target]
+         f"takes the width from the string length)", ln.node)
+    ltg = ln.var.elts if isinstance(ln.var, ast.Tuple) else [ln.var]
+    xpos = [i for i, t in enumerate(ltg) if norm(t) == xv]
+    # the empty list of every name: in the same loop, in a loop over the same things, or a dict comprehension over them
+    inits = 0
+    for n in _own_nodes(C):
+        if isinstance(n, ast.Assign) and len(n.targets) == 1 and isinstance(n.targets[0], ast.Subscript) and norm(n.targets[0].value) == REC \
+                and ((isinstance(n.value, ast.List) and not n.value.elts) or norm(n.value) == 'list()'):
+            il_ = enclosing(n, (ast.For,))
+            if il_ is None or _cond_guards(n):
+                continue
+            itg = il_.target.elts if isinstance(il_.target, ast.Tuple) else [il_.target]
+            if _iter_sig(il_.iter) == _iter_sig(ln.src) and len(itg) == len(ltg) and xpos and norm(itg[xpos[0]]) == norm(n.targets[0].slice):
+                inits += 1
+    rv = _unique_value(REC, site)
+    if isinstance(rv, ast.DictComp) and len(rv.generators) == 1 and not rv.generators[0].ifs:
+        g_ = rv.generators[0]
+        itg = g_.target.elts if isinstance(g_.target, ast.Tuple) else [g_.target]
+        if _iter_sig(g_.iter) == _iter_sig(ln.src) and len(itg) == len(ltg) and xpos and norm(itg[xpos[0]]) == norm(rv.key) and \
+                ((isinstance(rv.value, ast.List) and not rv.value.elts) or norm(rv.value) == 'list()'):
+            inits += 1
+    okE = inits == 1 and ln.conj == [] and (ln.loop is None or (len(_loop_guards(stmt_of(ln.node))) == 1 and
+                                                                 not any(isinstance(n, (ast.Break, ast.Continue)) for n in ast.walk(ln.loop))))
+    _chk(r, okE, m, cq, f"for {norm(ln.var)} in ...: {REC}[{xv}] = [] ; one line", "every name of the loop must get its empty "
+         "list and its line, unconditionally", ln.node)
+    # which names: the emission runs over a literal with s.reset plus ALL collected names
+    pieces = [_strip_wrappers(p) for p in _addends(_strip_wrappers(ln.src))]
+    cands = []
+    for nm_ in sorted({n.id for p_ in pieces for n in ast.walk(p_) if isinstance(n, ast.Name)}):
+        cs_ = [c_ for c_ in _collected(C, nm_) if isinstance(c_.elt, ast.Tuple) and c_.var is not None
+               and any(norm(x) == f'repr({norm(c_.var)})' for x in c_.elt.elts)]
+        if cs_:
+            cands.append((nm_, cs_))
+    if len(cands) != 1 or len(cands[0][1]) != 1:
+        raise AnalysisError(f"{cq}: expected the emission to run over one list of (..., repr(signal)) tuples built at one site")
+    NAMES, (na,) = cands[0]
+    sv = norm(na.var)
+    j = [i for i, x in enumerate(na.elt.elts) if norm(x) == f'repr({sv})']
+    names_n = sum(1 for p_ in pieces if isinstance(p_, ast.Name) and p_.id == NAMES)
+    lits = [p_ for p_ in pieces if isinstance(p_, ast.List)]
+    other = [p_ for p_ in pieces if not (isinstance(p_, ast.Name) and p_.id == NAMES) and not isinstance(p_, ast.List)]
+    tg = ltg
     okpos = len(j) == 1 and j[0] < len(tg) and norm(tg[j[0]]) == xv and \
         all(isinstance(t, ast.Tuple) and len(t.elts) == len(tg) for l_ in lits for t in l_.elts)
     has_reset = okpos and any(isinstance(t.elts[j[0]], ast.Constant) and t.elts[j[0]].value == 's.reset' for l_ in lits for t in l_.elts)
-    _chk(r, names_n == 1 and not other and okpos, m, cq, f"for {norm(el.target)} in {norm(el.iter)}",
+    _chk(r, names_n == 1 and not other and okpos, m, cq, f"for {norm(ln.var)} in {norm(ln.src)}",
          f"the emission loop must run over all of {NAMES} (whole list, any order) and take the name from the position repr(signal) was "
-         f"stored at: a sliced/filtered list leaves signals out of the record", el)
+         f"stored at: a sliced/filtered list leaves signals out of the record", ln.node)
     _chk(r, has_reset, m, cq, "literal entry 's.reset'", "s.reset is excluded by the collecting filter and must be added back explicitly "
-         "(the printer takes the number of cycles from it)", el)
-    cj = _conjuncts(_cond_guards(stmt_of(na)))
-    okc = cl is not None and parent(cl) is C and norm(_strip_wrappers(cl.iter)) == f'{top}._dsl.all_signals' and cj is not None
+         "(the printer takes the number of cycles from it)", ln.node)
+    cj = na.conj
+    okc = norm(_strip_wrappers(na.src)) == f'{top}._dsl.all_signals' and cj is not None and len(_bindings(C, NAMES)) == 1
     extra = []
     for p, t in (cj or []):
         if p == 'pos' and norm(t) == f'{sv}.is_top_level_signal()':
             continue
-        if p == 'pos' and isinstance(t, ast.Compare) and len(t.ops) == 1 and norm(t.left) == f'{sv}.get_field_name()':
+        if isinstance(t, ast.Compare) and len(t.ops) == 1 and norm(_res(t.left, t)) == f'{sv}.get_field_name()':
             c0 = t.comparators[0]
-            if isinstance(t.ops[0], ast.NotEq) and isinstance(c0, ast.Constant) and c0.value in ('clk', 'reset'):
+            ne = (isinstance(t.ops[0], (ast.NotEq, ast.NotIn)) and p == 'pos') or (isinstance(t.ops[0], (ast.Eq, ast.In)) and p == 'not')
+            if ne and isinstance(c0, ast.Constant) and c0.value in ('clk', 'reset'):
                 continue
-            if isinstance(t.ops[0], ast.NotIn) and isinstance(c0, (ast.Tuple, ast.List, ast.Set)) and \
+            if ne and isinstance(c0, (ast.Tuple, ast.List, ast.Set)) and \
                     all(isinstance(x, ast.Constant) and x.value in ('clk', 'reset') for x in c0.elts):
                 continue
         extra.append(('' if p == 'pos' else 'not ') + norm(t))
-    _chk(r, okc and not extra, m, cq, f"for {sv} in {norm(cl.iter) if cl else '?'}: collected under {[('' if p == 'pos' else 'not ') + norm(t) for p, t in (cj or [])]}",
+    _chk(r, okc and not extra, m, cq, f"for {sv} in {norm(na.src)}: collected under {[('' if p == 'pos' else 'not ') + norm(t) for p, t in (cj or [])]}",
          f"all signals of the design must be collected, filtered only by is_top_level_signal() and the names clk/reset"
-         f"{': `' + extra[0] + '` drops further signals from the record' if extra else ''}", na)
+         f"{': `' + extra[0] + '` drops further signals from the record' if extra else ''}", na.node)
     # the printer reads the record it is given, through bound names only
     pr = [n for n in ast.walk(call) if isinstance(n, ast.Assign) and _is_call(n.value) and isinstance(n.value.func, ast.Attribute)
           and norm(n.value.func.value) in ('self', 's') and any(isinstance(a, ast.Name) and a.id == dvar for a in n.value.args)]
@@ -2223,6 +2318,42 @@ EQUIV = [
     _m('textwave-filter-not-in', TW, 'x.get_field_name() != "clk" and x.get_field_name() != "reset":', 'x.get_field_name() not in ( "clk", "reset" ):'),
     _m('unroll-namespace-by-dict-call', UNROLL, "    l = {}\n    exec(", "    l = dict()\n    exec("),
     _m('flip-exec-fresh-copy-of-globals', SIMPLE, "mode='exec' ), globals(), l)", "mode='exec' ), dict(globals()), l)"),
+    # loop-with-append vs comprehension, index loops, flipped / split conditionals, helper locals
+    _m('textwave-names-by-comprehension', TW,
+       "    signal_names = []\n    for x in top._dsl.all_signals:\n      if x.is_top_level_signal() and x.get_field_name() != \"clk\" and x.get_field_name() != \"reset\":\n"
+       "        signal_names.append( (x._dsl.level, repr(x)) )\n",
+       "    signal_names = [ (x._dsl.level, repr(x)) for x in top._dsl.all_signals\n"
+       "                     if x.is_top_level_signal() and x.get_field_name() != \"clk\" and x.get_field_name() != \"reset\" ]\n"),
+    _m('textwave-names-nested-ifs', TW,
+       "      if x.is_top_level_signal() and x.get_field_name() != \"clk\" and x.get_field_name() != \"reset\":\n        signal_names.append( (x._dsl.level, repr(x)) )\n",
+       "      if not x.is_top_level_signal():\n        continue\n      fname = x.get_field_name()\n      if fname != \"clk\":\n        if not fname == \"reset\":\n"
+       "          signal_names.append( (x._dsl.level, repr(x)) )\n"),
+    _m('textwave-lines-by-comprehension', TW,
+       "      text_sigs[x] = []\n      wav_srcs.append(f\"text_sigs['{x}'].append( {x}.to_bits().bin() )\")\n",
+       "      text_sigs[x] = []\n    wav_srcs = [ f\"text_sigs['{x}'].append( {x}.to_bits().bin() )\" for _, x in sorted(signal_names) + [(0, 's.reset')] ]\n"),
+    _m('symbols-by-append-loop', VCD, "    net_symbol_mapping = [ next(vcd_symbols) for x in trimmed_value_nets ]\n",
+       "    net_symbol_mapping = []\n    for x in trimmed_value_nets:\n      net_symbol_mapping.append( next(vcd_symbols) )\n"),
+    _m('table-by-append-loop', VCD,
+       "    net_details = [ ( trimmed_value_nets[i][0], net_symbol_mapping[i] )\n                    for i in range(len(trimmed_value_nets))\n"
+       "                      if i != vcd_clock_net_idx ]\n",
+       "    net_details = []\n    for i, members in enumerate(trimmed_value_nets):\n      if i == vcd_clock_net_idx:\n        continue\n"
+       "      rep = members[0]\n      net_details.append( ( rep, net_symbol_mapping[i] ) )\n"),
+    _m('map-by-dict-comprehension', VCD,
+       "    signal_net_mapping = {}\n\n    for i in range(len(trimmed_value_nets)):\n      for x in trimmed_value_nets[i]:\n        signal_net_mapping[x] = i\n",
+       "    signal_net_mapping = { x: i for i, members in enumerate(trimmed_value_nets) for x in members }\n"),
+    _m('value-loop-by-index', VCD, "      for i, (signal, symbol) in enumerate( net_details ):\n",
+       "      for i in range(len(net_details)):\n        signal, symbol = net_details[i]\n"),
+    _m('initial-loop-by-index', VCD, "    for i, net in enumerate(trimmed_value_nets):\n", "    for i in range(len(trimmed_value_nets)):\n      net = trimmed_value_nets[i]\n"),
+    _m('var-symbol-branches-split', VCD,
+       "        if signal in signal_net_mapping:\n          net_id = signal_net_mapping[signal]\n          symbol = net_symbol_mapping[net_id]\n        else:\n",
+       "        if signal in signal_net_mapping:\n          symbol = net_symbol_mapping[ signal_net_mapping[signal] ]\n        if signal not in signal_net_mapping:\n"),
+    _m('registration-early-continue', VCD, "      if x.is_top_level_signal():\n        host = x.get_host_component()\n        component_signals[ host ].add( x )\n",
+       "      if not x.is_top_level_signal():\n        continue\n      component_signals[ x.get_host_component() ].add( x )\n"),
+    _m('dump-guard-flipped', PREP, "    if top.has_metadata( VcdGenerationPass.vcd_func ):\n      ret.append( top.get_metadata( VcdGenerationPass.vcd_func ) )\n",
+       "    if not top.has_metadata( VcdGenerationPass.vcd_func ):\n      pass\n    else:\n      ret.append( top.get_metadata( VcdGenerationPass.vcd_func ) )\n"),
+    _m('vcd-str-conditional-expression', BITS,
+       "    if self._nbits == 1:\n      str = f\"{int(self._uint):b}\"\n    else:\n      str = f\"b{int(self._uint):0{self._nbits}b} \"\n    return str\n",
+       "    return f\"{int(self._uint):b}\" if self._nbits == 1 else f\"b{int(self._uint):0{self._nbits}b} \"\n"),
 ]
 
 LEVEL_TEXT = ("Static analysis of the code that produces the waveforms. The tick builders are evaluated symbolically (sequence domain): each "
